@@ -234,35 +234,92 @@ class _Rename(ast.NodeTransformer):
         return ast.copy_location(_c.deepcopy(m), node)
 
 
-def _filter_generator_shape(fn: ast.FunctionDef) -> Optional[Tuple[ast.For, List[ast.stmt], Optional[ast.expr], ast.expr]]:
-    """`def g(p..): for x in X: [if c: continue]* (yield v | if t: yield v)` -> (loop, guards, yield-condition, yielded value)."""
+def _simple_stmt(st: ast.stmt) -> bool:
+    """A statement that may precede the yield inside an inlinable generator: plain assignments / expression statements and
+    `if c: continue` guards (no yields, no control flow other than that)."""
+    if any(isinstance(n, (ast.Yield, ast.YieldFrom, ast.Return, ast.Break, ast.Raise)) for n in ast.walk(st)):
+        return False
+    if isinstance(st, (ast.Assign, ast.AnnAssign, ast.AugAssign, ast.Expr)):
+        return True
+    return isinstance(st, ast.If) and not st.orelse and len(st.body) == 1 and isinstance(st.body[0], ast.Continue)
+
+
+def _filter_generator_shape(fn: ast.FunctionDef) -> Optional[List[ast.For]]:
+    """`def g(p..): for x in X: <simple>* (for y in Y: ... | yield v | if t: yield v)` -> the loop nest, outermost first.
+    The innermost loop's last statement is the only yield of the function."""
     a = fn.args
     if a.vararg or a.kwarg or a.kwonlyargs or a.defaults or a.posonlyargs:
         return None
     if any(ast.unparse(d).split(".")[-1] != "staticmethod" for d in fn.decorator_list):
         return None
     body = body_without_docstring(fn)
-    if len(body) != 1 or not isinstance(body[0], ast.For) or body[0].orelse:
+    if len(body) != 1 or not isinstance(body[0], ast.For):
         return None
-    loop = body[0]
-    n_y = sum(isinstance(n, (ast.Yield, ast.YieldFrom)) for n in ast.walk(fn))
-    if n_y != 1 or not loop.body:
+    if sum(isinstance(n, (ast.Yield, ast.YieldFrom)) for n in ast.walk(fn)) != 1:
         return None
-    guards, last = loop.body[:-1], loop.body[-1]
-    for g in guards:
-        if not (isinstance(g, ast.If) and not g.orelse and len(g.body) == 1 and isinstance(g.body[0], ast.Continue)):
+    return _loop_nest(body[0])
+
+
+def _yield_from_as_loop(st: ast.stmt) -> ast.stmt:
+    """`yield from X` (as a statement) is `for v in X: yield v`."""
+    if isinstance(st, ast.Expr) and isinstance(st.value, ast.YieldFrom):
+        lp = ast.For(ast.Name("__yf", ast.Store()), st.value.value, [ast.Expr(ast.Yield(ast.Name("__yf", ast.Load())))], [], None)
+        ast.copy_location(lp, st)
+        ast.fix_missing_locations(lp)
+        return lp
+    return st
+
+
+def _loop_nest(first: ast.stmt) -> Optional[List[ast.For]]:
+    nest: List[ast.For] = []
+    cur: ast.stmt = _yield_from_as_loop(first)
+    while isinstance(cur, ast.For):
+        if cur.orelse or not cur.body or not all(_simple_stmt(x) for x in cur.body[:-1]):
             return None
-    if isinstance(last, ast.Expr) and isinstance(last.value, ast.Yield) and last.value.value is not None:
-        return (loop, guards, None, last.value.value)
-    if isinstance(last, ast.If) and not last.orelse and len(last.body) == 1 and isinstance(last.body[0], ast.Expr) \
-            and isinstance(last.body[0].value, ast.Yield) and last.body[0].value.value is not None:
-        return (loop, guards, last.test, last.body[0].value.value)
-    return None
+        nest.append(cur)
+        cur = _yield_from_as_loop(cur.body[-1])
+        if isinstance(cur, ast.For) and cur is not nest[-1].body[-1]:
+            # keep the desugared loop reachable as the last statement of a shallow copy of its parent
+            import copy as _c
+            par = _c.copy(nest[-1])
+            par.body = list(par.body[:-1]) + [cur]
+            nest[-1] = par
+    last = cur
+    ok = (isinstance(last, ast.Expr) and isinstance(last.value, ast.Yield) and last.value.value is not None) or \
+        (isinstance(last, ast.If) and not last.orelse and len(last.body) == 1 and isinstance(last.body[0], ast.Expr)
+         and isinstance(last.body[0].value, ast.Yield) and last.body[0].value.value is not None)
+    return nest if ok and 1 <= len(nest) <= 3 else None
+
+
+def _chained_generator_shape(fn: ast.FunctionDef) -> Optional[List[List[ast.For]]]:
+    """A generator whose body is a sequence of loop nests / `yield from X` statements, each with exactly one yield."""
+    a = fn.args
+    if a.vararg or a.kwarg or a.kwonlyargs or a.defaults or a.posonlyargs:
+        return None
+    if any(ast.unparse(d).split(".")[-1] != "staticmethod" for d in fn.decorator_list):
+        return None
+    body = body_without_docstring(fn)
+    if not body or len(body) > 4:
+        return None
+    nests = []
+    for st in body:
+        st2 = _yield_from_as_loop(st)
+        if not isinstance(st2, ast.For):
+            return None
+        if sum(isinstance(n, (ast.Yield, ast.YieldFrom)) for n in ast.walk(st)) != 1:
+            return None
+        nst = _loop_nest(st2)
+        if nst is None:
+            return None
+        nests.append(nst)
+    return nests
 
 
 class _InlineFilterGenerators:
-    """`for T in g(args): BODY` with g a pure filter/map generator (one loop, guards that `continue`, one yield) becomes the
-    loop over g's own iterable with g's guards in front of BODY - same iteration order, same laziness, same break/continue."""
+    """`for T in g(args): BODY` with g a pure filter/map generator (a loop nest of plain statements and `continue` guards
+    around one yield) becomes g's own loop nest with BODY in place of the yield - same iteration order, same laziness; `continue`
+    in BODY continues the innermost loop, which is what resuming the generator does.  With more than one loop level BODY must
+    not `break` (that would have to leave all levels)."""
 
     def __init__(self, module: "Module"):
         self.m = module
@@ -312,10 +369,28 @@ class _InlineFilterGenerators:
         if hit is None:
             return None
         g, recv = hit
-        shape = _filter_generator_shape(g)
-        if shape is None:
+        nests = _chained_generator_shape(g)
+        if nests is None:
             return None
-        loop, guards, ycond, yval = shape
+        nest = nests[0]
+        if len(nests) > 1 or len(nest) > 1 or any(len(x) > 1 for x in nests):
+            # a `break` of the consumer's loop (not of a loop nested inside its body) cannot be expressed
+            def _breaks(stmts: List[ast.stmt]) -> bool:
+                for x in stmts:
+                    if isinstance(x, ast.Break):
+                        return True
+                    if isinstance(x, (ast.For, ast.While, ast.FunctionDef, ast.ClassDef)):
+                        continue
+                    for fld in ("body", "orelse", "finalbody"):
+                        sub = getattr(x, fld, None)
+                        if isinstance(sub, list) and sub and isinstance(sub[0], ast.stmt) and _breaks(sub):
+                            return True
+                    for h in getattr(x, "handlers", []) or []:
+                        if _breaks(h.body):
+                            return True
+                return False
+            if _breaks(st.body):
+                return None
         params = [a.arg for a in g.args.args]
         args = list(st.iter.args)             # type: ignore[attr-defined]
         if recv is not None:
@@ -339,24 +414,41 @@ class _InlineFilterGenerators:
                 tmp = ast.Name(tag + p_, ast.Load())
                 pre.append(ast.Assign([ast.Name(tag + p_, ast.Store())], a_))
                 mapping[p_] = tmp
-        # the generator's own locals (loop targets) get fresh names
-        for n in ast.walk(loop.target):
-            if isinstance(n, ast.Name):
+        # every local of the generator gets a fresh name
+        for n in ast.walk(g):
+            if isinstance(n, ast.Name) and isinstance(n.ctx, ast.Store) and n.id not in mapping:
                 mapping[n.id] = ast.Name(tag + n.id, ast.Load())
         import copy as _c
         rn = _Rename(mapping)
-        new_target = rn.visit(_c.deepcopy(loop.target))
-        new_iter = rn.visit(_c.deepcopy(loop.iter))
-        new_guards = [rn.visit(_c.deepcopy(gd)) for gd in guards]
-        bind = ast.Assign([st.target], rn.visit(_c.deepcopy(yval)))
-        inner: List[ast.stmt] = [bind] + list(st.body)
-        if ycond is not None:
-            inner = [ast.If(rn.visit(_c.deepcopy(ycond)), inner, [])]
-        new = ast.For(new_target, new_iter, new_guards + inner, [], None)
-        for n in pre + [new]:
+
+        mapping.setdefault("__yf", ast.Name(tag + "yf", ast.Load()))
+
+        def build(nst: List[ast.For], level: int, body_stmts: List[ast.stmt]) -> ast.For:
+            lp = nst[level]
+            head = [rn.visit(_c.deepcopy(x)) for x in lp.body[:-1]]
+            if level + 1 < len(nst):
+                tail: List[ast.stmt] = [build(nst, level + 1, body_stmts)]
+            else:
+                last = lp.body[-1]
+                if isinstance(last, ast.Expr):
+                    yv, yc = last.value.value, None                 # type: ignore[attr-defined]
+                else:
+                    yv, yc = last.body[0].value.value, last.test      # type: ignore[attr-defined]
+                inner: List[ast.stmt] = [ast.Assign([_c.deepcopy(st.target)], rn.visit(_c.deepcopy(yv)))] + body_stmts
+                tail = [ast.If(rn.visit(_c.deepcopy(yc)), inner, [])] if yc is not None else inner
+            return ast.For(rn.visit(_c.deepcopy(lp.target)), rn.visit(_c.deepcopy(lp.iter)), head + tail, [], None)
+
+        news: List[ast.stmt] = []
+        for i_, nst in enumerate(nests):
+            body_i = list(st.body) if i_ == 0 else [_c.deepcopy(x) for x in st.body]     # one copy of the consumer's body per yield site
+            lp_new = build(nst, 0, body_i)
+            if i_ > 0:
+                lp_new._sa_copy_of = news[0]       # type: ignore[attr-defined]
+            news.append(lp_new)
+        for n in pre + news:
             ast.copy_location(n, st)
             ast.fix_missing_locations(n)
-        return pre + [new]
+        return pre + news
 
 
 class Module:
@@ -466,6 +558,34 @@ class Program:
             self.by_rel[rel] = m
         self._stdlib: Dict[str, Module] = {}
         self._fold_guard: set = set()
+        self._relocations()
+
+    def _relocations(self) -> None:
+        """A known function that moved between "static method of a class" and "module-level function" keeps its known name:
+        `Cls.f` (inventory) that is now a module-level `f`, or a module-level `f` (inventory) that is now `Cls.f`."""
+        from .inventory import KNOWN_FUNCTIONS
+        from . import values as _v
+        alias: Dict[str, str] = {}
+        present = set()
+        for m in self.modules.values():
+            present |= {q for q, _ in iter_functions(m)}
+        for known in KNOWN_FUNCTIONS:
+            if known in present:
+                continue
+            if "." in known:
+                cls, name = known.rsplit(".", 1)
+                cands = [m for m in self.modules.values() if name in m.functions and name not in KNOWN_FUNCTIONS]
+                if len(cands) == 1 and len([k for k in KNOWN_FUNCTIONS if k.endswith("." + name) and k not in present]) == 1:
+                    alias[name] = known
+            else:
+                cands2 = [f"{ci.name}.{known}" for m in self.modules.values() for ci in m.classes.values()
+                          if known in ci.methods and f"{ci.name}.{known}" not in KNOWN_FUNCTIONS
+                          and any(ast.unparse(d).split(".")[-1] == "staticmethod" for d in ci.methods[known].decorator_list)]
+                if len(cands2) == 1:
+                    alias[cands2[0]] = known
+        self.qual_alias = alias
+        _v.QUAL_ALIAS.clear()
+        _v.QUAL_ALIAS.update(alias)
 
     def _read(self, rel: str) -> str:
         if rel in self.overlay:
@@ -574,6 +694,11 @@ class Program:
                 return _descend(fn, parts[2:], modname, qual)
         elif parts[0] in m.functions:
             return _descend(m.functions[parts[0]], parts[1:], modname, qual)
+        for new_q, old_q in getattr(self, "qual_alias", {}).items():
+            if old_q == qual and new_q != qual:
+                for m2 in self.modules.values():
+                    if any(q == new_q for q, _ in iter_functions(m2)):
+                        return self.function(m2.name, new_q)
         raise AnalysisError(f"anchor vanished: {modname}:{qual}")
 
     def has_function(self, modname: str, qual: str) -> bool:
